@@ -117,18 +117,32 @@ Section E2E.
   Proof. induction k as [|v r IH]; cbn; [reflexivity|]. now rewrite veqb_refl, IH. Qed.
 
   (* a value a column of metadata kind k can hold and that can come back *)
-  Definition wf (k : kind) (v : value) : Prop :=
+  Definition wf_base (k : kind) (v : value) : Prop :=        (* plain (not categorical) columns *)
     match k, v with
     | KInt sg bits, VInt z => in_range sg bits z = true
     | KBool, VBool _ | KStr, VStr _ | KFloat _, VFloat _ | KTime _, VTime _ | KTimeTz, VTime _ => True
-    | KCat, VCat (VStr _) => True
     | _, _ => False
     end.
+  (* categorical columns: text labels when the label type was not recorded (files of older writers), labels of
+     the recorded plain type otherwise *)
+  Definition wf (k : kind) (v : value) : Prop :=
+    match k with
+    | KCat None => match v with VCat (VStr _) => True | _ => False end
+    | KCat (Some lk) => match v with VCat l => wf_base lk l | _ => False end
+    | _ => wf_base k v
+    end.
+
+  Lemma wf_base_of_kind k v : wf_base k v -> of_kind_base F T D k v /\ unwrap v = v.
+  Proof. destruct k, v; cbn; tauto. Qed.
 
   Lemma wf_of_kind k v : wf k v -> of_kind k (unwrap v).
-  Proof. destruct k, v; cbn; try tauto. Qed.
+  Proof.
+    destruct k as [| | | | | |[lk|]]; try (intros H; destruct (wf_base_of_kind _ _ H) as [H1 H2]; rewrite H2; exact H1).
+    - destruct v as [| | | | | |l]; cbn; try tauto. intros H. apply (wf_base_of_kind lk l H).
+    - destruct v as [| | | | | |l]; cbn; try tauto.
+  Qed.
 
-  Lemma veqb_wf_eq k a b : wf k a -> wf k b -> veqb a b = true -> a = b.
+  Lemma veqb_wf_base_eq k a b : wf_base k a -> wf_base k b -> veqb a b = true -> a = b.
   Proof.
     destruct k, a, b; cbn; try tauto; intros Ha Hb H.
     - apply Z.eqb_eq in H. now subst.
@@ -137,7 +151,15 @@ Section E2E.
     - destruct (feqb_spec f f0); [now subst|discriminate].
     - destruct (teqb_spec t t0); [now subst|discriminate].
     - destruct (teqb_spec t t0); [now subst|discriminate].
-    - destruct a, b; try tauto. cbn in H. destruct (str_eqb_spec s s0); [now subst|discriminate].
+  Qed.
+
+  Lemma veqb_wf_eq k a b : wf k a -> wf k b -> veqb a b = true -> a = b.
+  Proof.
+    destruct k as [| | | | | |[lk|]]; try apply veqb_wf_base_eq.
+    - destruct a as [| | | | | |la], b as [| | | | | |lb]; cbn; try tauto. intros Ha Hb H.
+      f_equal. now apply (veqb_wf_base_eq lk).
+    - destruct a as [| | | | | |la], b as [| | | | | |lb]; cbn; try tauto.
+      destruct la, lb; try tauto. intros _ _ H. cbn in H. destruct (str_eqb_spec s s0); [now subst|discriminate].
   Qed.
 
   (* ---------------------------------------------------------------- the OrderedDict of sets *)
@@ -915,7 +937,25 @@ Section E2E.
     Definition Pv_hive (n : str) (v : value) : Prop :=
       exists k, alist_get n pm = Some k /\ wf k v /\ legal (show true v) /\
                 parse_with_meta k (show true v) = Ok (unwrap v).
-    Definition text_hive (n : str) : Prop := alist_get n pm = Some KStr \/ alist_get n pm = Some KCat.
+    Definition text_kind (k : kind) : Prop :=
+      match k with KStr | KCat None | KCat (Some KStr) => True | _ => False end.
+    Definition text_hive (n : str) : Prop := exists k, alist_get n pm = Some k /\ text_kind k.
+
+    Lemma hive_Hb1 n v : Pv_hive n v -> is_vstr (unwrap v) = true -> text_hive n.
+    Proof.
+      intros [k [Ek [Hwf _]]] Hs. exists k. split; [exact Ek|].
+      destruct k as [| | | | | |[lk|]]; destruct v as [| | | | | |l]; cbn in *; try tauto; try discriminate.
+      destruct lk, l; cbn in *; try tauto; discriminate.
+    Qed.
+
+    Lemma hive_Hb2 n v : text_hive n -> Pv_hive n v -> val_to_num (Some KStr) (show true v) = Ok (unwrap v).
+    Proof.
+      intros [k' [Ek' Ht]] [k [Ek [Hwf _]]]. rewrite Ek in Ek'. injection Ek' as <-.
+      destruct k as [| | | | | |[lk|]]; cbn in Ht; try tauto.
+      - destruct v; cbn in Hwf; try tauto; try reflexivity.
+      - destruct lk; try tauto. destruct v as [| | | | | |l]; cbn in Hwf; try tauto. destruct l; try tauto; try reflexivity.
+      - destruct v as [| | | | | |l]; cbn in Hwf; try tauto. destruct l; try tauto; try reflexivity.
+    Qed.
 
     Lemma hive_nx key : key_ok names Pv_hive key ->
       Forall nx_legal (combine names (map (show true) key)) /\
@@ -959,11 +999,8 @@ Section E2E.
     Proof.
       apply (read_generic true pm names pname names names_nodup Pv_hive unwrap text_hive).
       - intros n v [k [Ek [_ [_ Hrt]]]]. rewrite Ek. exact Hrt.
-      - intros n v [k [Ek [Hwf _]]] Hs. unfold text_hive. rewrite Ek.
-        destruct k, v; cbn in Hwf, Hs; try tauto; try discriminate; auto.
-      - intros n v Ht [k [Ek [Hwf _]]]. unfold text_hive in Ht. rewrite Ek in Ht.
-        destruct Ht as [[= ->]|[= ->]]; destruct v as [| | | | | |l]; cbn in Hwf; try tauto; try reflexivity.
-        destruct l; try tauto; reflexivity.
+      - exact hive_Hb1.
+      - exact hive_Hb2.
       - intros n v v' [k [Ek [Hwf _]]] [k' [Ek' [Hwf' _]]] H. rewrite Ek in Ek'. injection Ek' as <-.
         apply (veqb_of_kind_eq F T D feqb teqb deqb f_eq_Z show_float parse_float show_time_iso show_time_str parse_time_np parse_time_fmt parse_time_pd parse_delta feqb_spec teqb_spec k); [now apply wf_of_kind|now apply wf_of_kind|exact H].
       - intros key Hk. destruct (hive_paths key O Hk) as [_ [_ [H3 _]]].
@@ -993,11 +1030,8 @@ Section E2E.
     Proof.
       apply (e2e true pm names part_name names names_nodup Pv_hive unwrap text_hive).
       - intros n v [k [Ek [_ [_ Hrt]]]]. rewrite Ek. exact Hrt.
-      - intros n v [k [Ek [Hwf _]]] Hs. unfold text_hive. rewrite Ek.
-        destruct k, v; cbn in Hwf, Hs; try tauto; try discriminate; auto.
-      - intros n v Ht [k [Ek [Hwf _]]]. unfold text_hive in Ht. rewrite Ek in Ht.
-        destruct Ht as [[= ->]|[= ->]]; destruct v as [| | | | | |l]; cbn in Hwf; try tauto; try reflexivity.
-        destruct l; try tauto; reflexivity.
+      - exact hive_Hb1.
+      - exact hive_Hb2.
       - intros n v v' [k [Ek [Hwf _]]] [k' [Ek' [Hwf' _]]] H. rewrite Ek in Ek'. injection Ek' as <-.
         apply (veqb_of_kind_eq F T D feqb teqb deqb f_eq_Z show_float parse_float show_time_iso show_time_str parse_time_np parse_time_fmt parse_time_pd parse_delta feqb_spec teqb_spec k); [now apply wf_of_kind|now apply wf_of_kind|exact H].
       - intros key Hk. destruct (hive_paths part_name part_name_clean key O Hk) as [_ [_ [H3 _]]].
